@@ -71,6 +71,12 @@ CtorExt(chk)  == Free # {} /\
 CtorA(i)      == Live(i) /\ Len(obj[i]) >= 1 /\ Free # {} /\
                  Do([op |-> "ctor-A", src |-> i, dst |-> Slot], [obj EXCEPT ![Slot] = obj[i]], 0)
 
+\* Y = X.m() for a method that returns a NEW object with the same values (simplify, norm of valid members, unit of unit
+\* quaternions): a new object, not the receiver under another name
+SameValueMethods == {"simplify", "norm"}
+SameValue(i, m) == Live(i) /\ Len(obj[i]) >= 1 /\ Free # {} /\
+                   Do([op |-> "same-value-method", m |-> m, src |-> i, dst |-> Slot], [obj EXCEPT ![Slot] = obj[i]], 0)
+
 \* ---- documented list mutations: ONLY the receiver changes ----------------------------------
 SetFirst(i, k)  == Live(i) /\ Live(k) /\ i # k /\ Len(obj[i]) >= 1 /\ Len(obj[k]) = 1 /\
                    Do([op |-> "setitem", i |-> 0, tgt |-> i, arg |-> k], [obj EXCEPT ![i] = [@ EXCEPT ![1] = obj[k][1]]], 0)
@@ -98,6 +104,7 @@ Next ==
   \/ \E i \in Ids : \E k \in Ids : ListCtor(i, k)
   \/ \E chk \in BOOLEAN : CtorExt(chk)
   \/ \E i \in Ids : CtorA(i)
+  \/ \E i \in Ids : \E m \in SameValueMethods : SameValue(i, m)
   \/ \E i \in Ids : \E k \in Ids : SetFirst(i, k) \/ SetLast(i, k) \/ AppendO(i, k) \/ InsertO(i, k) \/ ExtendO(i, k)
   \/ \E i \in Ids : SetFresh(i) \/ PopLast(i) \/ ReverseO(i) \/ DelFirst(i) \/ ClearO(i) \/ Forget(i)
 
